@@ -1061,6 +1061,157 @@ func runConc(seed int64, nconn, nkeys, ncallers int, burst int) (res opResult) {
 	return res
 }
 
+// ---------------------------------------------------------------- the manager stalled during a join
+//
+// runStall: terminal 0 joins key 1; its application write callback then blocks for 4 s (a slow user callback in the
+// writer goroutine); four commands for key 1 are fired: three fill the connection's command queue, the fourth blocks
+// the MANAGER on it.  While the manager is stalled terminal 1 sends its first message (key 2): its join closure waits
+// in the manager's queue for about 4 s.  Then everything resumes.  Expected (the model, through the same
+// linearisation check): terminal 1 joins once; afterwards key 2 is routed to it, freed by its end, taken again by a
+// new connection, not online at the end.  Takes about 5 s: one per quick run.
+var (
+	stallMu    sync.Mutex
+	stallPhone string // the write callback blocks once for a message of this terminal
+)
+
+func runStall(seed int64) (res opResult) {
+	s := server()
+	var mu sync.Mutex
+	var hist []hop
+	var notes []string
+	t0 := time.Now()
+	now := func() int64 { return time.Since(t0).Nanoseconds() }
+	add := func(h hop) { mu.Lock(); hist = append(hist, h); mu.Unlock() }
+	note := func(f string, a ...any) { mu.Lock(); notes = append(notes, fmt.Sprintf(f, a...)); mu.Unlock() }
+	s.Rec.OnWrite = func(msg *service.Message) {
+		if msg == nil || msg.JTMessage == nil || msg.JTMessage.Header == nil {
+			return
+		}
+		stallMu.Lock()
+		hit := stallPhone != "" && strings.TrimLeft(msg.JTMessage.Header.TerminalPhoneNo, "0") == stallPhone
+		if hit {
+			stallPhone = ""
+		}
+		stallMu.Unlock()
+		if hit {
+			time.Sleep(4 * time.Second)
+		}
+	}
+	var conns []*regTerm
+	guard(&res, func() {
+		connect := func() (int, *regTerm) {
+			r, a, b := dial(s, now)
+			conns = append(conns, r)
+			add(hop{tok: "c", inv: a, resp: b, obs: "-"})
+			return len(conns) - 1, r
+		}
+		first := func(c int, r *regTerm, k int) string {
+			a := now()
+			phone := phoneOfKey(k)
+			r.setPhone(phone)
+			r.heartbeat(phone, fmt.Sprintf("first message of connection %d neither answered nor refused", c))
+			o := take(s, r, c, false)
+			add(hop{tok: fmt.Sprintf("f:%d:%d", c, k), inv: a, resp: now(), obs: o})
+			return o
+		}
+		send := func(k, tag int) {
+			key, _ := keyOf(phoneOfKey(k))
+			a := now()
+			r := call(s, key, tag)
+			got := recvBy(conns, tag)
+			obs := "?" + r.kind
+			switch {
+			case got >= 0:
+				obs = fmt.Sprintf("r:*:%d", got)
+			case r.kind == "noexist":
+				obs = "n:*"
+			case r.kind == "stopped" || r.kind == "wfail" || r.kind == "timeout":
+				obs = "r:*:*"
+			}
+			add(hop{tok: fmt.Sprintf("w:%d", k), inv: a, resp: now(), obs: obs})
+		}
+		end := func(c int, r *regTerm) {
+			a := now()
+			o := endConn(s, r, c, "s")
+			add(hop{tok: fmt.Sprintf("s:%d", c), inv: a, resp: now(), obs: o})
+		}
+		c0, r0 := connect()
+		c1, r1 := connect()
+		if o := first(c0, r0, 1); !strings.HasSuffix(o, ":0") {
+			note("connection 0 did not join key 1: %s", o)
+		}
+		// arm the slow callback and trigger it: the answer to this heartbeat is written, then the callback sleeps 4 s
+		stallMu.Lock()
+		stallPhone = phoneOfKey(1)
+		stallMu.Unlock()
+		r0.heartbeat(phoneOfKey(1), "heartbeat of connection 0 not answered")
+		var wg sync.WaitGroup
+		for i := 0; i < 4; i++ { // 3 fill activeMsgChan, the 4th blocks the manager until the writer resumes
+			wg.Add(1)
+			go func(i int) {
+				defer wg.Done()
+				var sub opResult
+				guard(&sub, func() { send(1, i) })
+				if sub.Stalled != "" {
+					note("stalled: %s", sub.Stalled)
+				}
+			}(i)
+		}
+		time.Sleep(300 * time.Millisecond) // let the four calls reach the manager (order among them does not matter)
+		tj := time.Now()
+		o := first(c1, r1, 2) // the manager is stalled: this join waits for it
+		waited := time.Since(tj)
+		if !strings.HasSuffix(o, ":0") {
+			note("connection 1's first message during a manager stall of %v: %s (it must join key 2: nobody holds it)", waited.Round(time.Millisecond), o)
+		}
+		wg.Wait()
+		// afterwards the registry behaves as the model says
+		if !r1.isEOF() {
+			a := now()
+			if !r1.heartbeat(phoneOfKey(2), "heartbeat of connection 1 neither answered nor closed") {
+				note("joined connection 1 no longer answers heartbeats (closed by the server)")
+			}
+			add(hop{tok: fmt.Sprintf("m:%d", c1), inv: a, resp: now(), obs: "-"})
+		}
+		send(2, 10)
+		end(c1, r1)
+		c2, r2 := connect()
+		if o := first(c2, r2, 2); !strings.HasSuffix(o, ":0") {
+			note("key 2 cannot be taken again after its connection ended: %s", o)
+		}
+		send(2, 11)
+		end(c2, r2)
+		end(c0, r0)
+		send(2, 12)
+		res.Counts = append(res.Counts, fmt.Sprintf("stall:join-waited-%ds", int(waited.Seconds())))
+	})
+	s.Rec.OnWrite = nil
+	if res.Stalled != "" {
+		for _, r := range conns {
+			r.t.Close()
+		}
+	}
+	for c, r := range conns {
+		if res.Stalled == "" {
+			if msg := lifeShape(s.Rec.Events(r.idx)); msg != "" {
+				note("connection %d callbacks: %s", c, msg)
+			}
+		}
+	}
+	sort.SliceStable(hist, func(i, j int) bool { return hist[i].inv < hist[j].inv })
+	var items []string
+	for _, h := range hist {
+		o := h.obs
+		if o == "" {
+			o = "-"
+		}
+		items = append(items, fmt.Sprintf("%s@%d-%d=%s", h.tok, h.inv, h.resp, o))
+	}
+	res.Req, res.Ans, res.Notes, res.NT = "reglin "+strings.Join(items, " "), "lin ok", notes, true
+	res.Counts = append(res.Counts, "conc:manager-stalled-during-join")
+	return res
+}
+
 func max64(a, b int64) int64 {
 	if a > b {
 		return a
@@ -1121,6 +1272,14 @@ func main() {
 		return textOf(runConc(seed, atoi(a[1]), atoi(a[2]), atoi(a[3]), b))
 	})
 	// the same for the parent (JSON)
+	RegisterOp("regstall", func(a []string) string { // regstall <seed>: the manager stalled for 4 s during a join
+		seed, _ := strconv.ParseInt(a[0], 10, 64)
+		return textOf(runStall(seed))
+	})
+	RegisterOp("xstall", func(a []string) string {
+		seed, _ := strconv.ParseInt(a[0], 10, 64)
+		return jsonOf(runStall(seed))
+	})
 	RegisterOp("xseq", func(a []string) string { return jsonOf(runSeq(a)) })
 	RegisterOp("xadapt", func(a []string) string { return jsonOf(runAdapt(adaptArgs(a))) })
 	RegisterOp("xconc", func(a []string) string {
@@ -1184,6 +1343,8 @@ func replayForm(req string) string {
 		return "regadapt " + req[7:]
 	case strings.HasPrefix(req, "xconc "):
 		return "regconc " + req[6:]
+	case strings.HasPrefix(req, "xstall "):
+		return "regstall " + req[7:]
 	}
 	return req
 }
@@ -1243,6 +1404,8 @@ func noteClass(n string) string {
 	switch {
 	case strings.Contains(n, "both held"), strings.Contains(n, "while connection"):
 		return "two-owners"
+	case strings.Contains(n, "during a manager stall"), strings.Contains(n, "cannot be taken again"):
+		return "join-during-stall"
 	case strings.Contains(n, "refused"):
 		return "refusal"
 	case strings.Contains(n, "callbacks"), strings.Contains(n, "leave callback"):
@@ -1330,6 +1493,15 @@ func c11(c *Ctx) {
 		if res != nil {
 			p.record(res, res.Req) // the script as it was generated is its own replay
 		}
+	}
+	// ---- the manager stalled for 4 s while a connection joins (5 s each: one per quick run)
+	nstall := 1
+	if !c.Quick() {
+		nstall = 12
+	}
+	for n := 0; n < nstall && p.fatal < 3; n++ {
+		req := fmt.Sprintf("xstall %d", rng.Int63n(1<<30))
+		p.record(p.run(req), replayForm(req))
 	}
 	// ---- concurrent scenarios
 	for n := 0; n < nconc && p.fatal < 3; n++ {
